@@ -60,6 +60,40 @@ NUM_STRS = ["", " ", "0", "-0", "+0", "1", "12", "-3.5", "+7", ".5", "5.", "-.5"
             "inf", "Inf", "INF", "-inf", "+inf", "infinity", "-Infinity", "nan", "NaN",
             " 1", "1 ", "\t1", "1\t", "abc", "1abc", "abc1", "1e", "e5", "1e+", "--1", "+-1", "1..2", "1.2.3", ".", "+", "-", "e",
             "1,5", "1 000", "١٢", "1é", "true", "null", "0.5.", "00012", "-00.50"]
+DIGIT_FIXED = ["9999999999999999999", "9223372036854775807", "9223372036854775808", "9223372036854775809", "18446744073709551615",
+               "18446744073709551616", "9300000000000000000", "09223372036854775808", "0009999999999999999", "00000000000000000001",
+               "10000000000000000000", "99999999999999999999", "9007199254740993", "9007199254740992", "9007199254740991",
+               "999999999999999999", "1000000000000000000", "4611686018427387904", "12345678901234567890", "0000000000000000000",
+               "-9223372036854775808", "-9223372036854775809", "-9999999999999999999", "+9999999999999999999", "9999999999999999999.0",
+               "9999999999999999999e0", "999999999999999999.9", "99999999999999999999999", "0018446744073709551615", "-0", "-00", "+0", "-0000000000000000000", "007", "-12"]
+DIGIT_ANCHORS = [2 ** 53, 2 ** 63, 2 ** 64, 2 ** 31, 2 ** 32, 2 ** 62, 10 ** 15, 10 ** 16, 10 ** 17, 10 ** 18, 10 ** 19, 10 ** 20, 10 ** 21,
+                 10 ** 22, 10 ** 23, 10 ** 25, 9 * 10 ** 18, 93 * 10 ** 17, 5 * 10 ** 18, 2 ** 63 + 2 ** 10, 2 ** 64 - 2 ** 10]
+
+
+def digit_string(rng):
+    """a long run of decimal digits (15-25 digits, around the int64 / uint64 / 2^53 borders and powers of ten), plain or
+    with leading zeros, a sign, a point or an exponent: every one is a numeric string whose value is its nearest double"""
+    r = rng.random()
+    if r < 0.45:
+        n = rng.choice(DIGIT_ANCHORS) + rng.choice([-2, -1, 0, 0, 1, 2, rng.randint(-10 ** 6, 10 ** 6)])
+        d = str(abs(n))
+    elif r < 0.6:
+        d = "9" * rng.randint(15, 25)
+    else:
+        d = str(rng.randint(1, 9)) + "".join(rng.choice("0123456789") for _ in range(rng.randint(14, 24)))
+    v = rng.random()
+    if v < 0.45:
+        return d
+    if v < 0.6:
+        return "0" * rng.choice([1, 2, 3, max(0, 19 - len(d)), max(0, 20 - len(d))]) + d
+    if v < 0.7:
+        return rng.choice("+-") + d
+    if v < 0.8:
+        return d + rng.choice([".0", ".", "e0", "E+0", "e1", "e-1", ".5"])
+    k = rng.randint(1, len(d) - 1)
+    return d[:k] + "." + d[k:]
+
+
 METHODS = ["length", "push", "pop", "popfirst", "contains", "sort", "split", "lower", "upper", "floor", "ceil", "round", "pluck"]
 RECEIVERS = ["(5)", "(-2.5)", '"abc"', '""', "true", "false", "null", "unset_var", '[1, "a"]', "[]", "{a: 1}", "{}", "/re/",
              "$", "$.s", "$.missing", "$.missing.deeper", "say", "num", "(0)", '"é"', "[[1]]", "{a: {b: 2}}"]
@@ -100,6 +134,11 @@ class C16(Check):
                 s = rand_string(rng)
             else:
                 s = rng.choice(["", sep, sep + sep, "aaa", "aaaa", "ababa", "abababa", "é", "日本語", ",,", ",a,", "a,,b"])
+            if rng.random() < 0.06:
+                # long enough for the searching strategies of a library to change (index tables, rolling hashes)
+                sep = rng.choice(SEPS[1:] + ["abcdefgh", "aaaaaaaa", "ababab", "日本語", ", , "])
+                pieces = [rng.choice(["", "a", "b", "ab", "abc", "x", "é", "aaaa", "0123456789"]) for _ in range(rng.randint(20, 90))]
+                s = sep.join(pieces)
             via = rng.choice(["doc", "doc", "lit"])
             sb, pb = s.encode(), sep.encode()
             if via == "lit" and any(c in s + sep for c in "\"'\\\t"):
@@ -166,13 +205,17 @@ class C16(Check):
             o = {}
             for _ in range(rng.randint(0, 5)):
                 o[rng.choice(KEYS)] = V.value(rng, 2, False, 0.3)
+            wide = rng.random() < 0.08
+            if wide:
+                for i in rng.sample(range(40), rng.randint(10, 25)):
+                    o["k%d" % i] = V.value(rng, 1, False, 0.2)
             keys = []
-            for _ in range(rng.randint(0, 4)):
+            for _ in range(rng.randint(8, 20) if wide else rng.randint(0, 4)):
                 r = rng.random()
                 if r < 0.5 and o:
                     keys.append(rng.choice(list(o)))
                 elif r < 0.8:
-                    keys.append(rng.choice(KEYS + PROTO_NAMES))
+                    keys.append(rng.choice(KEYS + PROTO_NAMES + (["k%d" % rng.randrange(40)] if wide else [])))
                 elif keys:
                     keys.append(rng.choice(keys))
                 else:
@@ -195,6 +238,10 @@ class C16(Check):
             cid = "nm%d" % k
             if k < len(NUM_STRS):
                 s = NUM_STRS[k]
+            elif k < len(NUM_STRS) + len(DIGIT_FIXED):
+                s = DIGIT_FIXED[k - len(NUM_STRS)]
+            elif rng.random() < 0.4:
+                s = digit_string(rng)
             else:
                 m = rng.random()
                 x = V.rand_finite(rng) if m < 0.4 else rng.uniform(-1e6, 1e6)
@@ -221,6 +268,17 @@ class C16(Check):
             cid = "nk%d" % k
             prog = "{ print num(%s) }" % src
             cases.append(Case(cid, simple_run(cid, prog, ["{}"]), {"fam": "numkind", "prog": prog, "doc": "{}", "want": want}, False))
+
+    def gen_coerce(self, rng, n, cases):
+        """the same strings through the operators' numeric coercion (DESIGN 3.2: ParseFloat if it succeeds, else 0)"""
+        for k in range(n):
+            cid = "co%d" % k
+            s = DIGIT_FIXED[k] if k < len(DIGIT_FIXED) else (digit_string(rng) if rng.random() < 0.8 else rng.choice(NUM_STRS))
+            if parse_num(s) is None and re.search(r"[_xXpP]", s):
+                s = "abc"
+            prog = "{ print $.s * 1, $.s - 0, -$.s, $.s > 0, $.s < 10000000000000000000, $.s == 9223372036854775807 }"
+            doc = json.dumps({"s": s}, ensure_ascii=False)
+            cases.append(Case(cid, simple_run(cid, prog, [doc]), {"fam": "coerce", "prog": prog, "doc": doc, "s": s}, True))
 
     def gen_nocrash(self, rng, n, cases):
         k = 0
@@ -261,7 +319,8 @@ class C16(Check):
         self.gen_case(rng, 100 if q else 3000, cases)
         self.gen_round(rng, 260 if q else 12000, cases)
         self.gen_pluck(rng, 160 if q else 6000, cases)
-        self.gen_num(rng, 260 if q else 10000, cases)
+        self.gen_num(rng, 420 if q else 14000, cases)
+        self.gen_coerce(rng, 120 if q else 3000, cases)
         self.gen_nocrash(rng, 450 if q else 16000, cases)
         return cases
 
@@ -344,6 +403,14 @@ class C16(Check):
             want = ("null" if x is None else pyref.fmt_f(x)) + "\n"
             if out.decode() != want:
                 return "num(%r): documented %r, implementation %r" % (m["s"], want, out.decode())
+            return None
+        if fam == "coerce":
+            sv = m["s"] if m["s"].isascii() else "x"
+            vals = [pyref.binop("*", sv, 1.0), pyref.binop("-", sv, 0.0), -pyref.num(sv), pyref.binop(">", sv, 0.0),
+                    pyref.binop("<", sv, 1e19), pyref.binop("==", sv, 9223372036854775807.0)]
+            want = " ".join(pyref.pretty(v) for v in vals) + "\n"
+            if out.decode() != want:
+                return "numeric coercion of the string %r: documented %r, implementation %r" % (m["s"], want, out.decode())
             return None
         if fam == "numkind":
             if out.decode() != m["want"] + "\n":
